@@ -172,14 +172,14 @@ var typeMembers = map[string][]string{
 	"symbol":               {"nil", "t", "sym", "fsym", "kwend", "kwkey"},
 	"keyword":              {"kwend", "kwkey"},
 	"nil":                  {"nil"},
-	"sequence":             {"nil", "list12", "nested", "alist", "lamx", "vec0", "vec12", "bitv", "octets", "fpvec", "str0", "str", "strl", "stral", "strj", "fpover", "fpshrunk", "adjarr", "bvcoerce4", "bvfixed8", "bvread9"},
-	"sequemce":             {"nil", "list12", "nested", "alist", "lamx", "vec0", "vec12", "bitv", "octets", "fpvec", "str0", "str", "strl", "stral", "strj", "fpover", "fpshrunk", "adjarr", "bvcoerce4", "bvfixed8", "bvread9"},
-	"vector":               {"vec0", "vec12", "bitv", "octets", "fpvec", "str0", "str", "strl", "stral", "strj", "fpover", "fpshrunk", "adjarr", "bvcoerce4", "bvfixed8", "bvread9"},
+	"sequence":             {"nil", "list12", "nested", "alist", "lamx", "vec0", "vec12", "bitv", "octets", "fpvec", "str0", "str", "strl", "stral", "strj", "fpover", "fpshrunk", "adjarr", "bvcoerce4", "bvfixed8", "bvread9", "bv0", "octets0"},
+	"sequemce":             {"nil", "list12", "nested", "alist", "lamx", "vec0", "vec12", "bitv", "octets", "fpvec", "str0", "str", "strl", "stral", "strj", "fpover", "fpshrunk", "adjarr", "bvcoerce4", "bvfixed8", "bvread9", "bv0", "octets0"},
+	"vector":               {"vec0", "vec12", "bitv", "octets", "fpvec", "str0", "str", "strl", "stral", "strj", "fpover", "fpshrunk", "adjarr", "bvcoerce4", "bvfixed8", "bvread9", "bv0", "octets0"},
 	"simple-vector":        {"vec0", "vec12", "adjarr"},
-	"array":                {"vec0", "vec12", "bitv", "octets", "fpvec", "str0", "str", "strl", "stral", "strj", "arr2d", "fpover", "fpshrunk", "adjarr", "bvcoerce4", "bvfixed8", "bvread9"},
-	"bit-array":            {"bitv", "bvcoerce4", "bvfixed8", "bvread9"},
-	"simple-bit-array":     {"bitv", "bvcoerce4", "bvfixed8", "bvread9"},
-	"octets":               {"octets"},
+	"array":                {"vec0", "vec12", "bitv", "octets", "fpvec", "str0", "str", "strl", "stral", "strj", "arr2d", "fpover", "fpshrunk", "adjarr", "bvcoerce4", "bvfixed8", "bvread9", "bv0", "octets0"},
+	"bit-array":            {"bitv", "bvcoerce4", "bvfixed8", "bvread9", "bv0"},
+	"simple-bit-array":     {"bitv", "bvcoerce4", "bvfixed8", "bvread9", "bv0"},
+	"octets":               {"octets", "octets0"},
 	"hash-table":           {"hash"},
 	"package":              {"pkg"},
 	"package designator":   {"pkg", "str", "str0", "strl", "stral", "strj", "sym", "fsym", "kwend", "kwkey", "chr", "nil", "t"},
